@@ -124,14 +124,32 @@ def problems(p):
     return [e for e in p.events if e[0] in ("load-unknown", "store-unknown", "read-uninit")]
 
 
+def narrowed_lengths(f, ps):
+    """instructions that truncate a length-derived value without a bound on the path - except where only the length handed to check_tag
+    is narrowed (the wipe extent is C04's R-C04-ARGS, not a mode matter)"""
+    out = {}
+    for p in ps:
+        for e in p.events:
+            if e[0] == "narrowing" and e[1] not in out:
+                I = f.insts[e[1]]
+                users = [J for J in f.insts if any(tuple(o) == ("i", I.id) for o in J.ops if isinstance(o, (list, tuple)))]
+                if users and all(J.op == "call" and (J.callee or "") == "tinyjambu_aead_check_tag" for J in users):
+                    continue
+                out[e[1]] = e
+    return out
+
+
 def narrowings(c, f, ps):
     """a length-derived value truncated to a narrower integer without a bound on the path: wrong for large lengths"""
     seen = set()
     for p in ps:
         for e in p.events:
             if e[0] == "narrowing" and e[1] not in seen:
-                seen.add(e[1])
                 I = f.insts[e[1]]
+                users = [J for J in f.insts if any(tuple(o) == ("i", I.id) for o in J.ops if isinstance(o, (list, tuple)))]
+                if users and all(J.op == "call" and (J.callee or "") == "tinyjambu_aead_check_tag" for J in users):
+                    continue        # only the length handed to check_tag is narrowed: the wipe extent is C04's (R-C04-ARGS), not a mode matter
+                seen.add(e[1])
                 c.ob(False, "ADVANCE", "length-narrowed#%s" % I.id, "",
                      "the length-derived value %s is truncated to %d bits with no bound on this path: for lengths >= 2^%d the number of blocks processed is wrong"
                      % (e[3], e[2], e[2]), where=relpath(I.where))
